@@ -205,6 +205,9 @@ func (e *Engine) callFunctionPushed(s *State, f *Frame, x *ssa.Call, fn *ssa.Fun
 
 func (e *Engine) apiCall(s *State, f *Frame, x *ssa.Call, api VOpaque, name string, args []Value, probe *probeRec) Value {
 	e.note("gnark frontend.API." + name + ": field semantics of gnark v0.9.1 assumed")
+	if name != "Compiler" {
+		e.checkAccumulatorReuse(s, f, x, name, args, probe)
+	}
 	switch name {
 	case "Compiler":
 		return VOpaque{Kind: "compiler", ID: api.ID, Data: api.Data}
@@ -1050,4 +1053,55 @@ func (e *Engine) focusedNoMatch(pc []*Term, segs []segment, cr *compiledRe) bool
 	hyps = append(hyps, cr.matchPred(StrConcat(parts...)))
 	e.pruneCalls++
 	return !e.quickSat(hyps)
+}
+
+// checkAccumulatorReuse: frontend.API.MulAcc(a, b, c) "may mutate a without allocating a new result" (gnark's R1CS
+// builder overwrites the storage of a when the sum fits its capacity).  A value that was passed as the accumulator
+// must therefore not be used again: every other copy of it (an array copied before the call, a slice element) may
+// have changed.  The engine works with values, not with storage, so the obligation is stated on values: a term that
+// was an accumulator must not be an operand of a later API call on the same path.  Plain wires (a hint output, an
+// input: one-term expressions without spare capacity) and constants are never overwritten and are exempt.
+func (e *Engine) checkAccumulatorReuse(s *State, f *Frame, x *ssa.Call, name string, args []Value, probe *probeRec) {
+	term := func(v Value) *Term {
+		switch y := v.(type) {
+		case VInt:
+			return y.T
+		case VIface:
+			if iv, ok := y.V.(VInt); ok {
+				return iv.T
+			}
+		}
+		return nil
+	}
+	var ops []*Term
+	for _, a := range args {
+		if t := term(a); t != nil {
+			ops = append(ops, t)
+			continue
+		}
+		if sl, ok := a.(VSlice); ok && sl.Len != nil && sl.Len.IsConst() && sl.Len.Val.Int64() <= 64 && (sl.Obj != nil || sl.Pure != nil) {
+			for i := int64(0); i < sl.Len.Val.Int64(); i++ {
+				if t := term(e.sliceAt(s, sl, Int64C(i))); t != nil {
+					ops = append(ops, t)
+				}
+			}
+		}
+	}
+	if probe == nil && len(s.consumedAcc) > 0 {
+		for _, t := range ops {
+			if pos, ok := s.consumedAcc[t]; ok {
+				e.emit(s, "acc-reuse", e.callSiteName(f, x, "invoke."+name), BoolC(false), x.Pos(),
+					"an operand of this API call was the accumulator of the MulAcc at "+e.posOf(pos)+": gnark may have overwritten it in place")
+				delete(s.consumedAcc, t) // one report per value
+			}
+		}
+	}
+	if name == "MulAcc" && len(args) == 3 {
+		if t := term(args[0]); t != nil && !t.IsConst() && t.Op != "var" {
+			if s.consumedAcc == nil {
+				s.consumedAcc = map[*Term]token.Pos{}
+			}
+			s.consumedAcc[t] = x.Pos()
+		}
+	}
 }
